@@ -428,3 +428,106 @@ Example C19_ex_actual_two_lists :
   DescribeActual.descents_ok (DescribeActual.list_body 1) [1%nat; 0%nat] = true /\
   DescribeActual.descents_ok (DescribeWalk.AAlias 1) [1%nat] = false.
 Proof. exact DescribeActualProofs.ex_two_lists. Qed.
+
+(* ---- HISTORIES of describe calls (Model/DescribeHist.v): the same type and value OBJECTS checked again and again, under
+   different subjects (strings, label functions, anything else) and through different entry points (px.DescribeMismatch,
+   AssertType, TypeMismatchError, AssertInstance, MismatchError).  The model threads through the calls the one piece of
+   state the code on these paths keeps - the detailed type that an Array / Hash value keeps once it has been inferred.
+   For EVERY universe of types and values, every describer `desc` that is a function of (name, expected, actual), every
+   world of objects and every list of calls: ---- *)
+From PcoreV Require Model.DescribeHist Proofs.DescribeHistProofs.
+
+(* the answers of a history are the answers that the calls get alone (a process in which nothing was asked before) *)
+Theorem C19_history_independent :
+  forall (E A V : Type) asgE instE desc dt (w : DescribeHist.world E A V) (cs : list DescribeHist.call),
+    DescribeHist.hrun E A V asgE instE desc dt w [] cs = map (DescribeHist.alone E A V asgE instE desc dt w) cs.
+Proof. exact DescribeHistProofs.hrun_alone. Qed.
+Print Assumptions C19_history_independent.
+
+(* a call after ANY history is answered as the call alone ... *)
+Theorem C19_history_after_any :
+  forall (E A V : Type) asgE instE desc dt (w : DescribeHist.world E A V) pre c,
+    DescribeHist.hrun E A V asgE instE desc dt w (DescribeHist.hstate E A V asgE instE desc dt w [] pre) [c]
+    = [DescribeHist.alone E A V asgE instE desc dt w c].
+Proof. exact DescribeHistProofs.after_any_history. Qed.
+Print Assumptions C19_history_after_any.
+
+(* ... so the same call gets the same answer after whichever two histories *)
+Theorem C19_history_same_call_same_answer :
+  forall (E A V : Type) asgE instE desc dt (w : DescribeHist.world E A V) pre1 pre2 c,
+    DescribeHist.hrun E A V asgE instE desc dt w (DescribeHist.hstate E A V asgE instE desc dt w [] pre1) [c]
+    = DescribeHist.hrun E A V asgE instE desc dt w (DescribeHist.hstate E A V asgE instE desc dt w [] pre2) [c].
+Proof. exact DescribeHistProofs.same_call_same_answer. Qed.
+Print Assumptions C19_history_same_call_same_answer.
+
+(* Named expected types: a chain of type aliases over ANY lattice type at the top of the expected type
+   (describeTypeAliasType; the alias stays `original` below an Optional), all lattice actual types, all paths *)
+Theorem C19_named_describe_total :
+  forall rx teq (e : DescribeHist.nty) (a : ty) (p : path), exists ms, DescribeHist.ndescribe rx teq e a p = Ok ms.
+Proof. exact DescribeHistProofs.ndescribe_total. Qed.
+Print Assumptions C19_named_describe_total.
+
+Theorem C19_named_empty_iff_assignable :
+  forall rx teq (e : DescribeHist.nty) (a : ty) (p : path),
+    DescribeHist.ndescribe rx teq e a p = Ok [] <-> DescribeHist.nasg rx e a = true.
+Proof. exact DescribeHistProofs.ndescribe_empty_iff. Qed.
+Print Assumptions C19_named_empty_iff_assignable.
+
+Theorem C19_named_names_subject :
+  forall rx teq (e : DescribeHist.nty) (a : ty) (subj : pelem) (p : path) ms,
+    DescribeHist.ndescribe rx teq e a (subj :: p) = Ok ms -> Forall (fun m => hd_error (snd m) = Some subj) ms.
+Proof. exact DescribeHistProofs.ndescribe_names_subject. Qed.
+Print Assumptions C19_named_names_subject.
+
+(* in EVERY history over named expected types every answer - description or raised detail - names the subject that ITS
+   call was given (string, label function: getPrefix), never one of an earlier call *)
+Theorem C19_history_names_its_subject :
+  forall rx teq (w : DescribeHist.nworld) cs i c ans,
+    nth_error cs i = Some c -> nth_error (DescribeHist.nrun rx teq w [] cs) i = Some ans ->
+    Forall (fun m => hd_error (snd m) = Some (DescribeHistProofs.subject_elem (DescribeHist.call_name c)))
+           (DescribeHist.answer_mismatches ans).
+Proof. exact DescribeHistProofs.nrun_names_its_subject. Qed.
+Print Assumptions C19_history_names_its_subject.
+
+(* in every history: a description is produced without a fault and is empty exactly when the types are assignable *)
+Theorem C19_history_describe_empty_iff :
+  forall rx teq (w : DescribeHist.nworld) cs i name e a te ta,
+    nth_error cs i = Some (DescribeHist.CDescribe name e a) ->
+    nth_error (DescribeHist.w_es w) e = Some te -> nth_error (DescribeHist.w_as w) a = Some ta ->
+    exists ms, nth_error (DescribeHist.nrun rx teq w [] cs) i = Some (DescribeHist.ADesc (Ok ms)) /\
+               (ms = [] <-> DescribeHist.nasg rx te ta = true).
+Proof. exact DescribeHistProofs.nrun_describe_empty_iff. Qed.
+Print Assumptions C19_history_describe_empty_iff.
+
+(* in every history: AssertInstance returns exactly on instances, otherwise raises the type mismatch with a non-empty
+   detail - whatever was asked before and whichever type is inferred (and kept) for the value *)
+Theorem C19_history_assert_instance :
+  forall rx teq (w : DescribeHist.nworld) cs i p e v te tv,
+    nth_error cs i = Some (DescribeHist.CAssertInstance p e v) ->
+    nth_error (DescribeHist.w_es w) e = Some te -> nth_error (DescribeHist.w_vs w) v = Some tv ->
+    (DescribeHist.ninst rx te (fst tv) = true /\
+     nth_error (DescribeHist.nrun rx teq w [] cs) i = Some (DescribeHist.AOut (Ok Returns))) \/
+    (DescribeHist.ninst rx te (fst tv) = false /\
+     exists m ms, nth_error (DescribeHist.nrun rx teq w [] cs) i
+                  = Some (DescribeHist.AOut (Ok (Raises TypeMismatchIssue (m :: ms))))).
+Proof. exact DescribeHistProofs.nrun_assert_instance. Qed.
+Print Assumptions C19_history_assert_instance.
+
+(* type Endpoint = Struct[{host => String}]; the same hash {host => 1} fails AssertInstance under "a", then under "b":
+   the second call reads the kept detailed type, and both details name their own subject; the third call describes the
+   kept Integer type against the alias under "c" *)
+Example C19_ex_history :
+  let rx := fun _ _ => false in
+  let host := [104; 111; 115; 116]%N in
+  let endpoint := DescribeHist.NAlias [69]%N (DescribeHist.NTy (TStruct [(host, (TStringVal host, TString))])) in
+  let dt := TStruct [(host, (TStringVal host, TInteger 1 1))] in
+  let w := DescribeHist.World [endpoint] [TInteger 0 5] [(VHash [(VStr host, VInt 1)], dt)] in
+  let sub n := (PSubject, KName (fn_prefix ++ n ++ [58]%N)) in
+  DescribeHist.nrun rx (fun _ _ => false) w []
+    [DescribeHist.CAssertInstance (DescribeHist.PString [97]%N) 0 0;
+     DescribeHist.CAssertInstance (DescribeHist.PLabel [98]%N) 0 0;
+     DescribeHist.CDescribe [99]%N 0 0]
+  = [DescribeHist.AOut (Ok (Raises TypeMismatchIssue [(CType, [sub [97]%N; (PEntry, KName host)])]));
+     DescribeHist.AOut (Ok (Raises TypeMismatchIssue [(CType, [sub [98]%N; (PEntry, KName host)])]));
+     DescribeHist.ADesc (Ok [(CType, [sub [99]%N])])].
+Proof. vm_compute. reflexivity. Qed.
